@@ -376,3 +376,114 @@ func verifH_C16_external_objects() {
 	verifAssert(reflect.DeepEqual(before, probe(doc2)), "C16 objects: after internalising, serialising and reloading every schema of the operation dereferences to the same content as before")
 	verifReach("end")
 }
+
+//verif:harness id=C16 tier=quick,thorough witness=end bounds="one external file whose components of different kinds share one name (Pet as schema, header, parameter, request body and response), referenced from one operation in every subset of {parameter, request body, response 200, response 404 with two headers that are the same external header, an earlier path using the external response}: after InternalizeRefs + serialise + reload (no external reads) every probed schema dereferences to the same content as before"
+func verifH_C16_same_name_kinds() {
+	files := map[string]string{
+		"/r/e.json": `{"components":{` +
+			`"schemas":{"Pet":{"type":"string","minLength":9}},` +
+			`"headers":{"Pet":{"schema":{"type":"string","minLength":8}}},` +
+			`"parameters":{"Pet":{"name":"p","in":"query","schema":{"type":"string","minLength":7}}},` +
+			`"requestBodies":{"Pet":{"content":{"application/json":{"schema":{"type":"string","minLength":6}}}}},` +
+			`"responses":{"Pet":{"description":"d","headers":{"X":{"$ref":"#/components/headers/Pet"}},"content":{"application/json":{"schema":{"$ref":"#/components/schemas/Pet"}}}}}}}`,
+	}
+	param := `{"name":"p","in":"query","schema":{"type":"boolean"}}`
+	body := `{"content":{"application/json":{"schema":{"type":"boolean"}}}}`
+	r200 := `{"description":"d"}`
+	r404 := `{"description":"d"}`
+	if verifChoose("param", 2) == 1 {
+		param = `{"$ref":"e.json#/components/parameters/Pet"}`
+	}
+	if verifChoose("body", 2) == 1 {
+		body = `{"$ref":"e.json#/components/requestBodies/Pet"}`
+	}
+	if verifChoose("r200", 2) == 1 {
+		r200 = `{"$ref":"e.json#/components/responses/Pet"}`
+	}
+	if verifChoose("r404", 2) == 1 {
+		r404 = `{"description":"d","headers":{"X":{"$ref":"e.json#/components/headers/Pet"},"Y":{"$ref":"e.json#/components/headers/Pet"}}}`
+	}
+	early := ""
+	if verifChoose("early", 2) == 1 {
+		// an earlier path that brings the external response in before /a's request body is looked at
+		early = `"/0":{"get":{"operationId":"op0","responses":{"200":{"$ref":"e.json#/components/responses/Pet"}}}},`
+	}
+	rootText := `{"openapi":"3.0.0","info":{"title":"t","version":"1"},"paths":{` + early + `"/a":{"post":{"operationId":"op","parameters":[` + param + `],"requestBody":` + body + `,"responses":{"200":` + r200 + `,"404":` + r404 + `}}}}}`
+	rootLoc := &url.URL{Path: "/r/doc.json"}
+	loader := NewLoader()
+	loader.IsExternalRefsAllowed = true
+	loader.ReadFromURIFunc = func(l *Loader, u *url.URL) ([]byte, error) {
+		if u.Path == rootLoc.Path {
+			return []byte(rootText), nil
+		}
+		if t, ok := files[u.Path]; ok {
+			return []byte(t), nil
+		}
+		return nil, errors.New("no such file")
+	}
+	doc, err := loader.LoadFromDataWithPath([]byte(rootText), rootLoc)
+	verifAssert(err == nil && doc != nil, "C16 same name: the multi-file document loads")
+	if err != nil || doc == nil {
+		return
+	}
+	probe := func(d *T) any {
+		op := d.Paths.Value("/a").Post
+		out := map[string]any{}
+		if p := op.Parameters[0]; p != nil && p.Value != nil {
+			out["param"] = verifDerefSchema(p.Value.Schema, 0)
+		} else {
+			out["param"] = "unresolved"
+		}
+		if op.RequestBody != nil && op.RequestBody.Value != nil {
+			if mt := op.RequestBody.Value.Content["application/json"]; mt != nil {
+				out["body"] = verifDerefSchema(mt.Schema, 0)
+			}
+		} else {
+			out["body"] = "unresolved"
+		}
+		for _, code := range []string{"200", "404"} {
+			r := op.Responses.Value(code)
+			if r == nil || r.Value == nil {
+				out[code] = "unresolved"
+				continue
+			}
+			for _, hn := range []string{"X", "Y"} {
+				if h := r.Value.Headers[hn]; h != nil && h.Value != nil {
+					out[code+"."+hn] = verifDerefSchema(h.Value.Schema, 0)
+				} else if h != nil {
+					out[code+"."+hn] = "unresolved:" + h.Ref
+				}
+			}
+			if mt := r.Value.Content["application/json"]; mt != nil {
+				out[code+".content"] = verifDerefSchema(mt.Schema, 0)
+			}
+		}
+		if p0 := d.Paths.Value("/0"); p0 != nil {
+			if r := p0.Get.Responses.Value("200"); r != nil && r.Value != nil {
+				if mt := r.Value.Content["application/json"]; mt != nil {
+					out["0.content"] = verifDerefSchema(mt.Schema, 0)
+				}
+			} else {
+				out["0"] = "unresolved"
+			}
+		}
+		return out
+	}
+	before := probe(doc)
+	doc.InternalizeRefs(context.Background(), nil)
+	b, merr := json.Marshal(doc)
+	verifAssert(merr == nil, "C16 same name: the internalised document serialises")
+	if merr != nil {
+		return
+	}
+	verifAssert(!strings.Contains(string(b), "e.json"), "C16 same name: no reference to the external file is left")
+	l2 := NewLoader()
+	l2.ReadFromURIFunc = func(*Loader, *url.URL) ([]byte, error) { return nil, errors.New("no reads expected") }
+	doc2, rerr := l2.LoadFromData(b)
+	verifAssert(rerr == nil && doc2 != nil, "C16 same name: the internalised document loads with external references disallowed")
+	if rerr != nil || doc2 == nil {
+		return
+	}
+	verifAssert(reflect.DeepEqual(before, probe(doc2)), "C16 same name: after internalising, serialising and reloading every schema of the operation dereferences to the same content as before")
+	verifReach("end")
+}
